@@ -14,6 +14,7 @@ import (
 	"regexp"
 	"strings"
 	"sync"
+	"sync/atomic"
 	"time"
 )
 
@@ -29,11 +30,30 @@ var solverCmds = []struct {
 	name string
 	argv func(file string, toSec int) []string
 }{
-	{"z3-new-5.1.0", func(f string, t int) []string { return []string{"z3-new", fmt.Sprintf("-T:%d", t), f} }},
-	{"z3-4.8.12", func(f string, t int) []string { return []string{"z3", fmt.Sprintf("-T:%d", t), f} }},
-	{"cvc5-1.0", func(f string, t int) []string {
-		return []string{"cvc5", "--lang=smt2", fmt.Sprintf("--tlimit=%d", t*1000), "--strings-exp", "--produce-models", f}
+	{"z3-new-5.1.0", func(f string, t int) []string {
+		return append([]string{"z3-new", fmt.Sprintf("-T:%d", t)}, append(z3Seed(), f)...)
 	}},
+	{"z3-4.8.12", func(f string, t int) []string {
+		return append([]string{"z3", fmt.Sprintf("-T:%d", t)}, append(z3Seed(), f)...)
+	}},
+	{"cvc5-1.0", func(f string, t int) []string {
+		a := []string{"cvc5", "--lang=smt2", fmt.Sprintf("--tlimit=%d", t*1000), "--strings-exp", "--produce-models"}
+		if sd := solverSeed.Load(); sd != 0 {
+			a = append(a, fmt.Sprintf("--seed=%d", sd))
+		}
+		return append(a, f)
+	}},
+}
+
+// solverSeed is 0 for the first attempt; the retry rounds of dischargeAll change it, so that an obligation whose
+// proof search went astray (heuristics, machine load) is attempted again on a different search path.
+var solverSeed atomic.Int64
+
+func z3Seed() []string {
+	if sd := solverSeed.Load(); sd != 0 {
+		return []string{fmt.Sprintf("smt.random_seed=%d", sd), fmt.Sprintf("sat.random_seed=%d", sd)}
+	}
+	return nil
 }
 
 var solverTimeMu sync.Mutex
